@@ -103,7 +103,6 @@ type DG struct {
 	Inc           int
 	Call          int64
 	Ret           int64
-	HandlerTask   int
 	Handled       bool // handler task ended
 	Killed        bool // handler (or queue) died in a crash
 	Replies       []*Reply
@@ -629,34 +628,35 @@ func (w *World) replySummary(r *Reply) string {
 	return "?"
 }
 
+// onTagDone: no task and no queued message of the server works for the datagram any more - it was handled
+// (answered, dropped, or given up), whatever goroutine structure did the handling.
+func (w *World) onTagDone(tag int64) {
+	w.drainUserLog()
+	dg := w.dgByID[tag]
+	if dg == nil || dg.Handled || dg.Killed {
+		return
+	}
+	dg.Handled = true
+	if dg.Ret == 0 {
+		dg.Ret = simrt.NextSeq()
+	}
+	if len(dg.Replies) == 0 {
+		w.mixState(uint64(dg.ID), 0)
+		w.hist("dg%d handled, no reply", dg.ID)
+	}
+	w.sc.OnHandled(w, dg)
+}
+
 func (w *World) onTaskEnd(t *simrt.Task) {
 	w.drainUserLog()
-	switch t.Kind {
-	case "handler":
-		dg := w.dgByID[t.Tag]
-		if dg == nil {
-			return
+	if t.Kind == "main" && t.Inc == w.Inc {
+		err := w.StartErr[t.Inc-1]
+		if err != "" {
+			w.hist("server incarnation %d failed to start: %s", t.Inc, err)
+		} else if w.Started[t.Inc-1] {
+			w.hist("server incarnation %d is up", t.Inc)
 		}
-		dg.Handled = true
-		dg.HandlerTask = t.ID
-		if dg.Ret == 0 {
-			dg.Ret = simrt.NextSeq()
-		}
-		if len(dg.Replies) == 0 {
-			w.mixState(uint64(dg.ID), 0)
-			w.hist("dg%d handled, no reply", dg.ID)
-		}
-		w.sc.OnHandled(w, dg)
-	case "main":
-		if t.Inc == w.Inc {
-			err := w.StartErr[t.Inc-1]
-			if err != "" {
-				w.hist("server incarnation %d failed to start: %s", t.Inc, err)
-			} else if w.Started[t.Inc-1] {
-				w.hist("server incarnation %d is up", t.Inc)
-			}
-			w.sc.OnStarted(w, t.Inc, err)
-		}
+		w.sc.OnStarted(w, t.Inc, err)
 	}
 }
 
@@ -744,7 +744,7 @@ func Run(o Options) report.Run {
 	sim := simrt.New(cfg, tape)
 	sim.TraceOn = o.Trace
 	w.Sim = sim
-	sim.Hooks = simrt.Hooks{OnCapture: w.onCapture, OnTaskEnd: w.onTaskEnd}
+	sim.Hooks = simrt.Hooks{OnCapture: w.onCapture, OnTaskEnd: w.onTaskEnd, OnTagDone: w.onTagDone}
 	w.sc.Plan(w)
 	if raceEnabled {
 		// no log line is formatted or written: logrus' own mutex must not order handlers by accident
@@ -856,7 +856,11 @@ func (w *World) afterRun(rr simrt.RunResult) {
 				w.unservedV6 = dg.V6
 				w.Violate("C01", "listener-not-served", "dg%d (%s) was delivered to listener %d %+v at t=%.3fs and is still queued on its socket with the server idle: no receive loop reads that socket", dg.ID, dg.Kind, dg.L, w.LSpecs[dg.L], float64(dg.DeliveredAt)/1e9)
 			} else {
-				w.Violate("C01", "handler-never-returns", "dg%d (%s) was read by the server but its handling never finished, and nothing is left to run", dg.ID, dg.Kind)
+				var sb strings.Builder
+				for _, t := range w.Sim.TagCarriers(dg.ID) {
+					fmt.Fprintf(&sb, " task %d (%s) at %s;", t.ID, t.Kind, simrt.SiteName(t.LastSite))
+				}
+				w.Violate("C01", "handler-never-returns", "dg%d (%s) was read by the server but its handling never finished, and nothing is left to run; still working for it:%s", dg.ID, dg.Kind, sb.String())
 			}
 			break
 		}
